@@ -208,7 +208,8 @@ Print Assumptions parse_wire_opt_is_source.
    remaining seconds, in chain order - an empty authority section and the same AD verdict (all segments'
    AD, cleared for CD).  For every name type, folding, store, qtype other than CNAME / DS (the call-site
    guard: such questions are chase-safe and never reach the composer), CD.  Premise: no alias record of
-   the chain points, in exact spelling, at a name already asked at or before its segment; the walk itself
+   the chain points, under case folding (both paths compare folded names since /repo a4faf69), at a name
+   already asked at or before its segment; the walk itself
    guarantees that (under folding) for the alias each segment continues with, not for the other alias
    records of a section (ex_chase_back_alias_differs shows the two MODELS differ there).
    Records are (type, alias target, opaque rest, TTL): CNAME chains only - DNAME synthesis, RDATA
@@ -220,9 +221,24 @@ Theorem wire_chase_eq_msg :
   (qtype =? TypeCNAME) = false -> (qtype =? 43) = false ->
   forall (q : name) (alias : centry name) (ans : list (rrec name)) (ad : bool),
   wire_chase name fold name_eqb lookup qtype cd q alias = Some (ans, ad) ->
-  (forall segs, collect name fold name_eqb lookup qtype 10 q q alias nil = Some segs -> acyclic name segs) ->
+  (forall segs, collect name fold name_eqb lookup qtype 10 q q alias nil = Some segs -> acyclic name fold segs) ->
   forall f : nat, (10 <= f)%nat ->
   msg_hit name fold name_eqb lookup qtype cd ns_dup f 0 q alias = MReply name 0 ans nil ad.
 Proof. exact wire_chase_eq_msg_lemma. Qed.
 Print Assumptions wire_chase_eq_msg.
+
+(* what the repaired admission path (a4faf69) lets in: the miss path runs additionalAnswer's scan on the
+   upstream answer and files a SERVFAIL instead of storing; hence a stored alias-only answer holds no alias
+   record pointing, in any spelling, at the name it is keyed under - the own-name part of [acyclic]'s head
+   condition for every non-terminal segment.  The rest of [acyclic] (alias records of a terminal segment
+   behind its first terminal record; names asked earlier in the chain for other than the continuing alias)
+   remains a premise of wire_chase_eq_msg. *)
+Theorem admitted_alias_only_not_self :
+  forall (name : Type) (fold : name -> name) (name_eqb : name -> name -> bool),
+  (forall a b : name, name_eqb a b = true <-> a = b) ->
+  forall (qtype : N) (qn : name) (rs : list (rrec name)) (t : option name),
+  has_qtype name qtype rs = false -> scan name fold name_eqb qtype qn rs t <> ScanServfail name ->
+  forall r, In r rs -> r_type name r = TypeCNAME -> fold (r_target name r) <> fold qn.
+Proof. exact admitted_alias_only_not_self. Qed.
+Print Assumptions admitted_alias_only_not_self.
 
